@@ -94,7 +94,7 @@ PROPS = {
                        "el, every item of <enum>_cases does, and new_<enum>(c) followed by <enum>_cases contains c up to equality",
     },
     "C07": {
-        "classes": r"^step\.(early|contract)",
+        "classes": r"^step\.(early|contract)|^prologue\.(exit|contract)",
         "lemmas": lambda n: n == "step" or n == "prologue",
         "witness": "closed-resume",
         "explanation": "bounded verification of one arbitrary loop iteration: close_until returns true only right after its condition "
